@@ -27,6 +27,7 @@ CFGS = [
     {"limit_request_fields": 2, "limit_request_field_size": 20, "limit_request_line": 30},
     {"limit_request_line": 0, "limit_request_field_size": 0},
     {"header_map": "refuse"},
+    {"proxy_protocol": True},
 ]
 _cfgs = {}
 
@@ -54,12 +55,30 @@ def padded(draw):
     nxt = draw(st.sampled_from(["", "GET /n HTTP/1.1\r\n\r\n"]))
     if draw(st.integers(0, 3)) == 0:
         # chunked with long size lines / extensions / trailers (sizes around 1024 and 8192)
-        ext = draw(st.sampled_from(["", ";e=" + "x" * 1020, ";e=" + "x" * 1030, ";" + "y" * 3000, ";" + "y" * 8200]))
+        ext = draw(st.sampled_from(["", ";e=" + "x" * 1020, ";e=" + "x" * 1030, ";" + "y" * 3000, ";" + "y" * 8200,
+                                    # the whole size line ("5" + extension) one under / exactly at / one over the 8190-byte cap
+                                    ";" + "y" * 8187, ";" + "y" * 8188, ";" + "y" * 8189]))
         tr = draw(st.sampled_from(["", "X-T: " + "t" * 1030 + "\r\n", "X-T: " + "t" * 9000 + "\r\n"]))
         z = draw(st.sampled_from(["0", "0" * 1030]))
         return "POST %s HTTP/1.1\r\n%sTransfer-Encoding: chunked\r\n\r\n5%s\r\nhello\r\n%s\r\n%s\r\n%s" % (
             target, hdrs, ext, z, tr, nxt)
     return "POST %s HTTP/1.1\r\n%sContent-Length: %d\r\n\r\n%s" % (target, hdrs, blen, body) + nxt
+
+
+@st.composite
+def proxied(draw):
+    """a PROXY protocol v1 line (short, long-but-valid, garbage) in front of a conforming pipeline; proxy_protocol is on (config 7)"""
+    full = "2001:0db8:0000:0000:0000:0000:0000:%04x"
+    line = draw(st.sampled_from([
+        "PROXY TCP4 192.0.2.1 192.0.2.2 1111 80",
+        "PROXY TCP6 %s %s 00000065535 00000000080" % (full % 1, full % 2),            # 114 bytes, valid for the PROXY parser
+        "PROXY TCP6 %s %s 65535 80" % (full % 1, full % 2),
+        "PROXY UNKNOWN",
+        "PROXY TCP4 " + "9" * 120,
+        "PROXY  TCP4 192.0.2.1 192.0.2.2 1111 80",
+    ]))
+    n = draw(st.integers(1, 2))
+    return {"stream": line + "\r\n" + "".join(draw(gen_http.conforming_request())["raw"] for _ in range(n)), "cfg": 7}
 
 
 @st.composite
@@ -91,7 +110,8 @@ def strategy(tier):
         "all_pairs": st.just(tier == "thorough"),
     }
     lim = st.tuples(at_limit(), st.fixed_dictionaries(common)).map(lambda t: dict(t[1], **t[0]))
-    return st.one_of(_general(tier), _general(tier), _general(tier), lim)
+    prox = st.tuples(proxied(), st.fixed_dictionaries(common)).map(lambda t: dict(t[1], **t[0]))
+    return st.one_of(_general(tier), _general(tier), _general(tier), _general(tier), lim, lim, prox)
 
 
 def _general(tier):
